@@ -206,6 +206,41 @@ func c04prefix(r *core.Rand, m *sync2.Map[int, int64], keys []int, max int) (map
 	g := &mapOpGen{r: r, client: 0, keys: keys, rangeW: 3}
 	n := r.Intn(max + 1)
 	var hist []rec
+	// Half of the prefixes start with a directed recipe that reaches a specific
+	// layout of the read/dirty/expunged machine (then random calls follow).
+	if r.Bool() {
+		nu := len(keys) + 2
+		K := func(i int) int { return i % nu }
+		val := int64(1 << 20)
+		st := func(k int) rec { val++; return rec{Op: opStore, Key: K(k), Arg: val} }
+		rng := rec{Op: opRange}
+		del := func(k int) rec { return rec{Op: opDelete, Key: K(k)} }
+		ld := func(k int) rec { return rec{Op: opLoad, Key: K(k)} }
+		los := func(k int) rec { val++; return rec{Op: opLoadOrStore, Key: K(k), Arg: val} }
+		lad := func(k int) rec { return rec{Op: opLoadAndDelete, Key: K(k)} }
+		expunged := []rec{st(0), st(1), rng, del(0), st(2)} // k0 expunged in read, dirty={k1,k2}, amended
+		recipes := [][]rec{
+			expunged,
+			{st(0), rng, del(0)},  // nil entry, no dirty map
+			{st(0), rng, st(1)},   // amended: k1 only in dirty
+			{st(0), st(1), ld(5)}, // one miss short of promotion
+			{st(0), ld(0)},        // promoted by a miss
+			append(append([]rec{}, expunged...), st(0)), // store to an expunged entry (unexpunge)
+			append(append([]rec{}, expunged...), los(0)),
+			append(append([]rec{}, expunged...), lad(0), ld(0)),
+			{st(0), rng, st(1), del(1)},                     // delete of a dirty-only key
+			{st(0), st(1), rng, del(0), del(1), st(2), rng}, // expunged entries dropped by the next promotion
+			{st(0), rng, del(0), los(0)},                    // LoadOrStore into a nil entry (lock-free CAS path)
+		}
+		for _, o := range recipes[r.Intn(len(recipes))] {
+			o := o
+			if sig, msg := seqStep(m, model, &o); sig != "" {
+				return model, hist, "prefix:" + sig + " " + msg
+			}
+			hist = append(hist, o)
+		}
+		n = r.Intn(4)
+	}
 	for i := 0; i < n; i++ {
 		o := g.next()
 		if o.Op == opLoad && r.Chance(1, 2) {
